@@ -7,6 +7,7 @@ import (
 	"github.com/nspcc-dev/neo-go/pkg/crypto/keys"
 	"math/big"
 	"sort"
+	"strings"
 	"time"
 
 	"github.com/nspcc-dev/neo-go/pkg/consensus"
@@ -375,6 +376,16 @@ func (s *netSim) packFromPools() {
 		}
 		r.out.Probes["block_packed_from_pool"]++
 		r.out.Probes["packed_txs"] += len(txs)
+		// a backup that holds none of these transactions verifies each of them from scratch (consensus.verifyBlock:
+		// a fresh pool, Blockchain.PoolTx); AddBlock below skips that for the ones a node has pooled itself
+		scratch := mempool.New(len(txs), false, nil)
+		for _, tx := range txs {
+			if err := bc.PoolTx(tx, scratch); err != nil {
+				r.violate(sim.Violatef("c07-pooled-tx-not-proposable", "c07-pooled-tx-not-proposable/"+strings.SplitN(err.Error(), ":", 2)[0], "validator %d (height %d) holds transaction %s in its pool and would propose it; verified from scratch against the same ledger it is refused: %v", src.idx, top, tx.Hash().StringLE()[:8], err))
+				return
+			}
+		}
+		r.out.Probes["packed_txs_verified_from_scratch"] += len(txs)
 		for _, v := range s.nodes {
 			if v.n.closed || v.n.BC.BlockHeight() != top {
 				continue
